@@ -110,6 +110,14 @@ class ArrayType(AggregateType):
         self.__elementType = elementType
         self.__arraySize = tuple(arraySize)
 
+    def __eq__(self, other):
+        """Two array types are the same type if the element type and the
+        size are."""
+        return isinstance(other, ArrayType) and repr(self) == repr(other)
+
+    def __hash__(self):
+        return hash(repr(self))
+
     def IsArray(self):
         return True
 
